@@ -72,9 +72,10 @@ class SnepServer(threading.Thread):
         send_miu = client_socket.getsockopt(nfc.llcp.SO_SNDMIU)
         try:
             while client_socket.poll('recv'):
-                data = bytearray(client_socket.recv())
+                data = client_socket.recv()
                 if not data:
                     break  # connection closed
+                data = bytearray(data)
 
                 if len(data) < 6:
                     log.debug("snep msg initial fragment too short")
@@ -100,6 +101,8 @@ class SnepServer(threading.Thread):
                             data += client_socket.recv()
                         except TypeError:
                             break  # connection closed
+                    if len(data) - 6 < length:
+                        break  # incomplete message is not processed
 
                 # message complete, now handle the request
                 data = self.process_snep_request(data)
